@@ -1,7 +1,7 @@
 \* the repaired design (cancellation sampled when Stream returns): every property, including late cancellation
 SPECIFICATION Spec
 CONSTANTS
-  MaxPkts = 2
+  MaxPkts = 3
   MaxAttempts = 1
   MaxErrorCalls = 2
   Defects = {}
